@@ -201,7 +201,8 @@ def run(rep, tier, seed):
                     for k, (tg, vals) in enumerate(robs):
                         hdr = b"".join(struct.pack("<I", num(v) & 0xFFFFFFFF) for v in vals)
                         data = list(written[k]["data"]) if k < len(written) else [-1]
-                        rl.append({"k": "rec", "hdr": list(hdr), "data": data})
+                        whdr = list(written[k]["raw"][:16]) if k < len(written) else [-1]
+                        rl.append({"k": "rec", "hdr": list(hdr), "data": data, "whdr": whdr})
                     if first == "R":
                         resj = rl[0] if rl else {"k": "missing"}
                     else:
